@@ -80,3 +80,10 @@ def run(ctx):
         "projection of integer tables (fill value -> -1 after dtype/fill flags are recorded)",
         "only manifold tables are judged for edge_face / face_face (the property's quantifier)",
     ]
+
+
+def replay(path):
+    """./check C03 --replay replays/C03_<clause>_<tier>.json"""
+    from checks import mesh_hist as mh
+
+    return mh.replay_file(PROP, path)
